@@ -45,7 +45,7 @@ fn large_world() -> World {
     let btc = coin("bitcoin");
     let mut cb = ChainBuilder::with_genesis(btc);
     let mut txs = Vec::new();
-    for t in 0..45usize {
+    for t in 0..120usize {
         txs.push(Tx { version: 1, segwit: false, inputs: vec![TxIn::spend([0xee; 32], t as u32)], outputs: (0..1000usize).map(|k| TxOut { value: 1 + k as u64, script: refmodel::script::p2pkh(&{
             let mut h = [0u8; 20];
             h[..8].copy_from_slice(&((t * 1000 + k) as u64).to_le_bytes());
